@@ -2,21 +2,43 @@ CHECK = {
     "level": "model_checking",
     "rule": ("E1 exploration of all interaction-outcome sequences (<= 2 deviations from 'absorb') of one "
              "event, over the scoring-configuration lattice: callbacks/filters {recorder all fields; "
-             "recorder minimal fields; two recorders on one collector; detector map {inner} with the "
-             "non-zero-deposit filter off/on; detector map {inner, world} + filter; two recorders with "
-             "disjoint detector maps; SimpleCalo alone} x slots {1,2,8} x streams {1, 2 alternating}, with "
-             "ActionDiagnostic and StepDiagnostic attached, x primaries {gamma,e-,e+} x energies x "
-             "positions. non-trivial = execution with >=1 deviation, distinct by (root, delivered stream)."),
+             "recorder minimal fields; two recorders on one collector in both orders (all;minimal / "
+             "minimal;all); detector map {inner->0} with the non-zero-deposit filter off/on; {inner->0, "
+             "world->1} + filter; {inner->3, world->0} + filter (ids neither contiguous nor in volume "
+             "order); two recorders with disjoint detector maps asking for the filter (on;off) and "
+             "(off;on); detector maps with the selections {energy_deposition} (no pre-step field) and "
+             "{parent_id, step_length, pre.energy, post.pos}; SimpleCalo alone with labels {inner,g1} and "
+             "{g1,inner}; one recorder selecting only flag k for each of the 17 StepSelection flags; two "
+             "recorders selecting only flags k and (k+5) mod 17} x slots {1,2,8} x streams {1, 2 "
+             "alternating from root to root} (quick: 2 streams for 6 of the 15 modes, one-flag "
+             "configurations with 2 slots), modes 0 and 4 also with track order reindex_shuffle / "
+             "reindex_status (thorough: + reindex_particle_type, reindex_both_action, init_charge) so that "
+             "thread id != slot id, always with ActionDiagnostic and StepDiagnostic attached, x primaries "
+             "{gamma,e-,e+} x energies x positions with event ids 0..3. With a detector map every recorder "
+             "also runs the real copy_steps() into a reused DetectorStepOutput. After every root the three "
+             "tallies are clear()ed and must read zero. non-trivial = execution with >=1 deviation, "
+             "distinct by (root, delivered stream)."),
     "assumptions": [
         "expected deliveries come from independent probe actions at user_pre/user_post reading the track "
-        "state through CoreTrackView; comparison is bit-for-bit on every selected field",
+        "state through CoreTrackView; comparison is bit-for-bit on every selected field; the stream id "
+        "passed to process_steps must be the Stepper's",
         "merged filter semantics as documented in StepParams: union of selections, union of disjoint "
-        "detector maps, non-zero filter only if all callbacks ask for it; a consumer ignores slots "
-        "without a detector when a detector map is declared",
+        "detector maps, non-zero filter only if all callbacks ask for it (independent of their order); a "
+        "consumer ignores slots without a detector when a detector map is declared",
+        "StepData.hh: 'each data member corresponds exactly to a flag; if the flag is disabled the member "
+        "data will be empty': the gathered collections are exactly the union of the selections",
+        "copy_steps(): output vector empty iff the source collection is empty, else one element per slot "
+        "with a valid detector id, in slot order, bit-identical to the slot",
+        "SimpleCalo stream-local tallies are read from its (private) StreamStore because the public "
+        "accessor energy_deposition<M>(StreamId) is not instantiated in the library; "
+        "ActionDiagnostic::clear() is only called after a Stepper exists (its precondition)",
     ],
     "bounds": {"quick": {"deviations": 2}, "thorough": {"deviations": 2}},
     "parts": [
         {"name": "scoring", "harness": "c17_scoring", "flavour": "rel",
+         # reads SimpleCalo's per-stream store (its public accessor energy_deposition<M>(StreamId)
+         # is a template defined in SimpleCalo.cc without instantiation: not linkable)
+         "cflags": ["-fno-access-control"],
          "shards": {"quick": 16, "thorough": 16}, "deadline": {"quick": 100, "thorough": 1200}},
     ],
 }
@@ -26,9 +48,11 @@ META = {
     "technique": "deviation-bounded exhaustive exploration of event histories on the real stepping loop; "
                  "delivered step records compared with independent probe snapshots",
     "text": ("For every explored history and every scoring configuration the multiset of records delivered "
-             "to each callback is compared with what independent probes saw at the step points, and the "
-             "calorimeter / diagnostic tallies with sums over those records: exactly-once delivery, field "
-             "fidelity and filter semantics are decided for every history within the bound, including "
-             "1-slot and multi-stream configurations the unit tests do not run."),
+             "to each callback is compared with what independent probes saw at the step points, the "
+             "consolidated copy_steps() output with the raw slots, and the calorimeter (per stream and "
+             "total) / diagnostic tallies with sums over those records, including their reset: "
+             "exactly-once delivery, field fidelity (every single selection flag alone), filter and "
+             "selection merging and the stream identity are decided for every history within the bound, "
+             "including 1-slot, sorted-track and multi-stream configurations the unit tests do not run."),
     "note": "Trusts the probe action (public CoreStepActionInterface + CoreTrackView accessors).",
 }
